@@ -584,3 +584,348 @@ Section Seek.
         * intros Heq. exfalso. pose proof (off_lt P b c r1 Hc ltac:(lia)). unfold es in Heq. lia.
   Qed.
 End Seek.
+
+(* ================= seekForPrev ================= *)
+Section SeekPrev.
+  Variable P : list (list kv).
+  Hypothesis Hwf : wf_parts P.
+  Let t := tbl_of P.
+  Let es := concat P.
+
+  Lemma At_entry st g : At P st g ->
+    (g < length es)%nat /\ bi_key (ti_bi st) = fst (nth g es dkv) /\
+    bi_val (ti_bi st) = vs_encode (snd (nth g es dkv)) /\ ti_err st = ENone.
+  Proof.
+    intros (b & c & i & Hb & Hg & Hbp & Herr & (Hbv & Hidx & Heof & Hk & Hv & Hi)).
+    subst g. split; [exact (off_lt P b c i Hb Hi)|].
+    unfold es, off. rewrite (nth_concat_off P b c i dkv Hb Hi). rewrite Hk, Hv. auto.
+  Qed.
+
+  Lemma es_key8 g : (g < length es)%nat -> (8 <= length (fst (nth g es dkv)))%nat.
+  Proof. intros Hg. apply (key_len8 P Hwf). apply nth_In. exact Hg. Qed.
+
+  Lemma es_sorted : sorted_kv es.
+  Proof. exact (wp_sorted P Hwf). Qed.
+
+  Lemma es_lt i j : (i < j)%nat -> (j < length es)%nat -> klt (fst (nth i es dkv)) (fst (nth j es dkv)).
+  Proof. intros. now apply (sorted_nth es i j es_sorted). Qed.
+
+  Lemma before_r_lt k a : (8 <= length k)%nat -> (a < find_idx (ge_key k) es)%nat -> klt (fst (nth a es dkv)) k.
+  Proof.
+    intros Hk Ha. pose proof (find_idx_le (ge_key k) es).
+    apply ge_false_lt; [exact Hk|apply es_key8; lia|]. now apply find_idx_before.
+  Qed.
+
+  Theorem seek_for_prev_ok st k : (8 <= length k)%nat ->
+    let r' := find_idx (gt_key k) es in
+    exists st', ti_seek_for_prev t st k = Some st' /\
+      ((0 < r')%nat -> At P st' (r' - 1)) /\ ((r' = 0)%nat -> BeginR st').
+  Proof.
+    intros Hk r'. unfold ti_seek_for_prev.
+    destruct (seek_from_ok P Hwf st k Hk) as (st1 & H1 & Hin & Hout). fold t in H1. rewrite H1.
+    set (r := find_idx (ge_key k) (concat P)) in *. fold es in r, Hin, Hout.
+    pose proof (find_idx_le (ge_key k) es) as Hrle. fold r in Hrle.
+    destruct (Nat.eq_dec r (length es)) as [Hend|Hmid].
+    - (* key beyond the last entry *)
+      destruct (Hout Hend) as (c & Hc & He & Hb & Hbv & Hidx).
+      assert (Hne: bytes_eqb (bi_key (ti_bi st1)) k = false).
+      { destruct (bytes_eqb (bi_key (ti_bi st1)) k) eqn:E; [|reflexivity]. apply bytes_eqb_eq in E.
+        destruct Hbv as (_ & _ & _ & [Hnil|(j & Hj & Hkj)]).
+        - rewrite Hnil in E. subst k. cbn in Hk. lia.
+        - exfalso. assert (Hin': In (nth j c dkv) es) by (apply (in_block_es P _ c _ Hc); now apply nth_In).
+          pose proof (find_idx_full (ge_key k) es Hend _ Hin') as Hf.
+          apply ge_false_lt in Hf; [|exact Hk|apply (key_len8 P Hwf); exact Hin'].
+          unfold ckey in Hkj. rewrite <- Hkj, E in Hf. exact (klt_irrefl _ Hf). }
+      rewrite Hne.
+      destruct (prev_EndS P Hwf st1 (ex_intro _ c (conj Hc (conj He (conj Hb (conj Hbv Hidx))))))
+        as (st2 & H2 & Hat).
+      fold t in H2. exists st2. split; [exact H2|].
+      assert (Hr': r' = length es).
+      { apply (find_idx_char _ dkv); [lia| |lia].
+        intros a Ha. apply lt_gt_false. apply before_r_lt; [exact Hk|]. fold r. lia. }
+      rewrite Hr'. split; [intros _; exact Hat|]. intros H0. exfalso.
+      pose proof (P_len_pos P Hwf). destruct (nth_error_ex P 0 ltac:(lia)) as (c0 & Hc0).
+      pose proof (off_lt P 0 c0 0 Hc0 (chunk_len_pos c0 (wf_parts_chunk P 0 c0 Hwf Hc0))). fold es in H3. lia.
+    - assert (Hlt: (r < length es)%nat) by lia.
+      pose proof (Hin Hlt) as Hat. destruct (At_entry st1 r Hat) as (_ & Hkey & _ & _).
+      pose proof (find_idx_at (ge_key k) dkv es Hlt) as Hge. fold r in Hge.
+      pose proof (es_key8 r Hlt) as Hk8.
+      destruct (bytes_eqb (bi_key (ti_bi st1)) k) eqn:E.
+      + (* exact match *)
+        apply bytes_eqb_eq in E. rewrite Hkey in E.
+        exists st1. split; [reflexivity|].
+        assert (Hr': r' = S r).
+        { apply (find_idx_char _ dkv); [lia| |].
+          - intros a Ha. destruct (Nat.eq_dec a r) as [->|Hne].
+            + unfold gt_key. rewrite E, ck_refl by exact Hk. reflexivity.
+            + apply lt_gt_false. apply before_r_lt; [exact Hk|]. fold r. lia.
+          - intros Hs. pose proof (es_lt r (S r) ltac:(lia) Hs) as Hl. rewrite E in Hl.
+            apply ck_antisym in Hl. cbn in Hl. unfold gt_key. now rewrite Hl. }
+        rewrite Hr'. split; [intros _; replace (S r - 1)%nat with r by lia; exact Hat|lia].
+      + (* strictly greater: step back *)
+        assert (Hgt: gt_key k (nth r es dkv) = true).
+        { unfold ge_key in Hge. unfold gt_key.
+          destruct (ck_total _ k Hk8 Hk) as (x & Hx). rewrite Hx in *.
+          destruct x; [|discriminate|reflexivity].
+          apply ck_eq in Hx. rewrite Hkey, Hx, bytes_eqb_refl in E. discriminate. }
+        assert (Hr': r' = r).
+        { apply (find_idx_char _ dkv); [lia| |intros _; exact Hgt].
+          intros a Ha. apply lt_gt_false. apply before_r_lt; [exact Hk|]. fold r. lia. }
+        destruct (prev_ok P Hwf st1 r Hat) as (st2 & H2 & Hp1 & Hp2). fold t in H2.
+        exists st2. split; [exact H2|]. rewrite Hr'. split; assumption.
+  Qed.
+End SeekPrev.
+
+(* ================= the y.Iterator interface refines the list cursor (C18_iter) ================= *)
+Inductive iop := IRewind | ISeek (k : bytes) | INext.
+
+Definition it_step (rev : bool) (t : table) (st : titer) (o : iop) : option titer :=
+  match o with
+  | IRewind => ti_Rewind rev t st
+  | ISeek k => ti_Seek rev t st k
+  | INext => ti_Next rev t st
+  end.
+
+(* what a caller sees: nothing when !Valid(), else Key() and the decoded Value() *)
+Definition it_obs (st : titer) : option (bytes * value_struct) :=
+  if ti_valid st then match ti_value st with Some v => Some (ti_key st, v) | None => None end else None.
+
+(* None = the implementation panicked *)
+Fixpoint it_run (rev : bool) (t : table) (st : titer) (ops : list iop)
+  : option (list (option (bytes * value_struct))) :=
+  match ops with
+  | [] => Some []
+  | o :: r => match it_step rev t st o with
+              | None => None
+              | Some st' => option_map (cons (it_obs st')) (it_run rev t st' r)
+              end
+  end.
+
+(* the list cursor: Some g = at entry g, None = exhausted (stays exhausted until repositioned) *)
+Definition cur_step (rev : bool) (es : list kv) (cur : option nat) (o : iop) : option nat :=
+  let n := length es in
+  match o with
+  | IRewind => if (n =? 0)%nat then None else Some (if rev then n - 1 else 0)%nat
+  | ISeek k =>
+      if rev then match find_idx (gt_key k) es with O => None | S r => Some r end   (* last entry <= k *)
+      else let r := find_idx (ge_key k) es in if (r <? n)%nat then Some r else None (* first entry >= k *)
+  | INext =>
+      match cur with
+      | None => None
+      | Some g => if rev then match g with O => None | S g' => Some g' end
+                  else if (S g <? n)%nat then Some (S g) else None
+      end
+  end.
+
+Definition cur_obs (es : list kv) (cur : option nat) : option (bytes * value_struct) :=
+  match cur with None => None | Some g => nth_error es g end.
+
+Fixpoint cur_run (rev : bool) (es : list kv) (cur : option nat) (ops : list iop)
+  : list (option (bytes * value_struct)) :=
+  match ops with
+  | [] => []
+  | o :: r => let c' := cur_step rev es cur o in cur_obs es c' :: cur_run rev es c' r
+  end.
+
+Definition op_ok (o : iop) : Prop := match o with ISeek k => (8 <= length k)%nat | _ => True end.
+
+Section Refine.
+  Variable P : list (list kv).
+  Hypothesis Hwf : wf_parts P.
+  Let t := tbl_of P.
+  Let es := concat P.
+
+  Definition Rel (rev : bool) (st : titer) (cur : option nat) : Prop :=
+    match cur with
+    | Some g => At P st g
+    | None => if rev then BeginR st else EndF P st \/ EndS P st
+    end.
+
+  Lemma es_len_pos : (0 < length es)%nat.
+  Proof.
+    pose proof (P_len_pos P Hwf). destruct (nth_error_ex P 0 ltac:(lia)) as (c0 & Hc0).
+    pose proof (off_lt P 0 c0 0 Hc0 (chunk_len_pos c0 (wf_parts_chunk P 0 c0 Hwf Hc0))). unfold es. lia.
+  Qed.
+
+  Lemma Rel_obs rev st cur : Rel rev st cur -> it_obs st = cur_obs es cur.
+  Proof.
+    destruct cur as [g|]; cbn [Rel cur_obs].
+    - intros Hat. destruct (At_entry P st g Hat) as (Hg & Hk & Hv & He).
+      unfold it_obs, ti_valid, ti_value, ti_key. rewrite He, Hk, Hv.
+      rewrite vs_roundtrip.
+      + fold es. rewrite (nth_error_nth' es dkv Hg). now destruct (nth g es dkv).
+      + pose proof (wp_exp P Hwf) as Hex. rewrite Forall_forall in Hex. apply Hex. apply nth_In. exact Hg.
+    - unfold it_obs, ti_valid. destruct rev.
+      + intros (-> & _). reflexivity.
+      + intros [(-> & _)|(c & _ & -> & _)]; reflexivity.
+  Qed.
+
+  Lemma step_rel rev st cur o : op_ok o -> (o = INext -> Rel rev st cur) ->
+    exists st', it_step rev t st o = Some st' /\ Rel rev st' (cur_step rev es cur o).
+  Proof.
+    intros Hok Hrel. pose proof es_len_pos as Hn.
+    assert (En: (length es =? 0)%nat = false) by (apply Nat.eqb_neq; lia).
+    destruct o as [|k|]; cbn [it_step cur_step].
+    - (* Rewind *)
+      rewrite En. destruct rev; cbn [ti_Rewind].
+      + destruct (seek_to_last_ok P Hwf st) as (st' & H1 & H2). exists st'. split; [exact H1|exact H2].
+      + destruct (seek_to_first_ok P Hwf st) as (st' & H1 & H2). exists st'. split; [exact H1|exact H2].
+    - (* Seek *)
+      cbn in Hok. destruct rev; cbn [ti_Seek].
+      + destruct (seek_for_prev_ok P Hwf st k Hok) as (st' & H1 & H2 & H3). exists st'. split; [exact H1|].
+        fold es in H2, H3. destruct (find_idx (gt_key k) es) as [|r]; cbn [Rel].
+        * now apply H3.
+        * replace r with (S r - 1)%nat by lia. apply H2. lia.
+      + destruct (seek_from_ok P Hwf st k Hok) as (st' & H1 & H2 & H3). exists st'. split; [exact H1|].
+        fold es in H2, H3. pose proof (find_idx_le (ge_key k) es) as Hle.
+        destruct (find_idx (ge_key k) es <? length es)%nat eqn:E; cbn [Rel].
+        * apply H2. now apply Nat.ltb_lt.
+        * right. apply H3. apply Nat.ltb_ge in E. lia.
+    - (* Next *)
+      specialize (Hrel eq_refl). destruct cur as [g|]; cbn [Rel] in Hrel.
+      + destruct rev; cbn [ti_Next].
+        * destruct (prev_ok P Hwf st g Hrel) as (st' & H1 & H2 & H3). exists st'. split; [exact H1|].
+          destruct g as [|g]; cbn [Rel]; [now apply H3|].
+          replace g with (S g - 1)%nat by lia. apply H2. lia.
+        * destruct (next_ok P Hwf st g Hrel) as (st' & H1 & H2 & H3). exists st'. split; [exact H1|].
+          destruct (At_entry P st g Hrel) as (Hg & _). fold es in Hg, H2, H3.
+          destruct (S g <? length es)%nat eqn:E; cbn [Rel].
+          -- apply H2. now apply Nat.ltb_lt.
+          -- left. apply H3. apply Nat.ltb_ge in E. lia.
+      + destruct rev; cbn [ti_Next].
+        * destruct (prev_BeginR P st Hrel) as (st' & H1 & H2). exists st'. split; [exact H1|exact H2].
+        * destruct Hrel as [Hf|Hs].
+          -- destruct (next_EndF P st Hf) as (st' & H1 & H2). exists st'. split; [exact H1|]. now left.
+          -- destruct (next_EndS P Hwf st Hs) as (st' & H1 & H2). exists st'. split; [exact H1|]. now left.
+  Qed.
+
+  Lemma run_rel rev : forall ops st cur, Forall op_ok ops ->
+    (match ops with INext :: _ => Rel rev st cur | _ => True end) ->
+    it_run rev t st ops = Some (cur_run rev es cur ops).
+  Proof.
+    induction ops as [|o ops IH]; intros st cur Hok Hfirst; [reflexivity|].
+    inversion Hok as [|? ? Ho Hoks]; subst. cbn [it_run cur_run].
+    destruct (step_rel rev st cur o Ho) as (st' & H1 & H2).
+    { intros ->. exact Hfirst. }
+    rewrite H1. rewrite (IH st' (cur_step rev es cur o) Hoks).
+    - cbn [option_map]. now rewrite (Rel_obs rev st' _ H2).
+    - destruct ops as [|[] ?]; auto.
+  Qed.
+
+  (* C18_iter: from ANY iterator state, any sequence of Rewind / Seek k / Next that starts with a
+     positioning call returns exactly what the list cursor over the flat input returns *)
+  Theorem table_iter_refines rev st ops :
+    Forall op_ok ops -> (match ops with INext :: _ => False | _ => True end) ->
+    it_run rev t st ops = Some (cur_run rev es None ops).
+  Proof.
+    intros Hok Hfirst. apply run_rel; [exact Hok|]. destruct ops as [|[] ?]; auto. destruct Hfirst.
+  Qed.
+End Refine.
+
+(* ================= from the builder to the opened table ================= *)
+Lemma tsize_concat_ge P c : In c P -> (tsize c <= tsize (concat P))%nat.
+Proof.
+  induction P as [|c' P IH]; intros H; [destruct H|]. cbn [concat]. rewrite tsize_app.
+  destruct H as [->|H]; [lia|]. specialize (IH H). lia.
+Qed.
+
+Lemma bb_base_chunk c : bb_base (chunk_block c) = ckey c 0.
+Proof. destruct c; reflexivity. Qed.
+
+Lemma mk_table_ok P : forall css, Forall wf_chunk P -> N.of_nat (tsize (concat P)) < two32 ->
+  length css = length P -> Forall (fun cs => N.of_nat (length cs) < two32) css ->
+  mk_table (map chunk_block P) css = Some (tbl_of P).
+Proof.
+  unfold mk_table. induction P as [|c P IH]; intros css Hwf Hsz Hlen Hcs; [reflexivity|].
+  destruct css as [|cs css]; [discriminate|]. cbn [map].
+  inversion Hwf as [|? ? Hc HP]; subst. inversion Hcs as [|? ? Hcs1 Hcs2]; subst.
+  cbn [concat] in Hsz. rewrite tsize_app in Hsz.
+  rewrite chunk_parse; [|assumption|lia|assumption].
+  rewrite (IH css HP ltac:(lia) ltac:(cbn in Hlen; lia) Hcs2).
+  cbn [tbl_of map]. now rewrite bb_base_chunk.
+Qed.
+
+Lemma partition_wf es P : wf_es es -> es <> [] -> sorted_kv es ->
+  Forall (fun e => vs_expires (snd e) < two64) es ->
+  concat P = es -> Forall (fun p => p <> []) P -> wf_parts P.
+Proof.
+  intros [Hkeys _] Hne Hs Hex Hcat HP. subst es. constructor; auto.
+  - rewrite Forall_forall in *. intros c Hc. split; [now apply HP|].
+    rewrite Forall_forall. intros e He. apply Hkeys. apply in_concat. eauto.
+  - intros ->. now apply Hne.
+Qed.
+
+(* Smallest / Biggest of the opened table *)
+Lemma open_table_ok P maxv nk : wf_parts P ->
+  open_table (tbl_of P) maxv nk =
+  Some (mkTT (tbl_of P) (fst (nth 0 (concat P) dkv)) (fst (nth (length (concat P) - 1) (concat P) dkv)) maxv nk).
+Proof.
+  intros Hwf. unfold open_table. pose proof (P_len_pos P Hwf) as Hp.
+  destruct (nth_error_ex P 0 Hp) as (c0 & Hc0).
+  remember (tbl_of P) as T eqn:ET.
+  destruct T as [|tb0 T'].
+  { exfalso. destruct P; [cbn in Hp; lia|discriminate]. }
+  assert (Htb: tb_base tb0 = ckey c0 0).
+  { destruct P as [|c P']; [discriminate|]. cbn in Hc0. injection Hc0 as ->.
+    cbn in ET. now injection ET as -> _. }
+  rewrite ET. cbn [ti_Rewind].
+  destruct (seek_to_last_ok P Hwf ti_zero) as (st' & H1 & H2). rewrite H1.
+  destruct (At_entry P st' _ H2) as (Hg & Hk & _ & He).
+  unfold ti_valid, ti_key. rewrite He, Hk, Htb. f_equal. f_equal.
+  pose proof (nth_concat_off P 0 c0 0 dkv Hc0 (chunk_len_pos c0 (wf_parts_chunk P 0 c0 Hwf Hc0))) as Hn.
+  cbn [firstn concat length Nat.add] in Hn. rewrite Hn. reflexivity.
+Qed.
+
+(* maxVersion is the maximum of ParseTs over the keys *)
+Lemma max_version_spec es :
+  (forall e, In e es -> parse_ts (fst e) <= max_version es) /\
+  (es <> [] -> exists e, In e es /\ parse_ts (fst e) = max_version es).
+Proof.
+  unfold max_version.
+  set (f := fun (m : N) (e : kv) => if m <? parse_ts (fst e) then parse_ts (fst e) else m).
+  assert (G: forall es m,
+             (m <= fold_left f es m) /\
+             (forall e : kv, In e es -> parse_ts (fst e) <= fold_left f es m) /\
+             (fold_left f es m = m \/ exists e : kv, In e es /\ parse_ts (fst e) = fold_left f es m)).
+  { clear es. induction es as [|x es IH]; intros m; cbn [fold_left].
+    - repeat split; [lia|intros e []|now left].
+    - assert (Hm: m <= f m x /\ parse_ts (fst x) <= f m x)
+        by (unfold f; destruct (m <? parse_ts (fst x)) eqn:E; lia).
+      destruct (IH (f m x)) as (H1 & H2 & H3).
+      repeat split.
+      + lia.
+      + intros e [<-|He]; [lia|now apply H2].
+      + destruct H3 as [H3|(e & He & H3)].
+        * unfold f in H3 at 2. destruct (m <? parse_ts (fst x)) eqn:E.
+          -- right. exists x. split; [now left|]. now rewrite H3.
+          -- left. exact H3.
+        * right. exists e. split; [now right|exact H3]. }
+  destruct (G es 0) as (H1 & H2 & H3). split; [exact H2|].
+  intros Hne. destruct H3 as [H3|(e & He & H3)].
+  - destruct es as [|e es']; [congruence|]. exists e. split; [now left|].
+    pose proof (H2 e (or_introl eq_refl)). lia.
+  - exists e. now split.
+Qed.
+
+(* The whole pipeline: Builder (any split policy) -> stored blocks (any checksums) -> OpenTable ->
+   Iterator refines the list cursor over the input; metadata as specified *)
+Theorem built_table_refines pol es css bl maxv nk :
+  wf_es es -> es <> [] -> sorted_kv es -> Forall (fun e => vs_expires (snd e) < two64) es ->
+  build pol es = Some (bl, maxv, nk) ->
+  length css = length bl -> Forall (fun cs => N.of_nat (length cs) < two32) css ->
+  exists t, mk_table bl css = Some t /\
+    open_table t maxv nk = Some (mkTT t (fst (nth 0 es dkv)) (fst (nth (length es - 1) es dkv))
+                                      (max_version es) (N.of_nat (length es) mod two32)) /\
+    forall rev st ops, Forall op_ok ops -> (match ops with INext :: _ => False | _ => True end) ->
+      it_run rev t st ops = Some (cur_run rev es None ops).
+Proof.
+  intros Hwf Hne Hs Hex Hb Hlen Hcs.
+  destruct (build_partition pol es bl maxv nk Hwf Hb) as (P & Hcat & HP & Hbl & Hmv & Hnk).
+  pose proof (partition_wf es P Hwf Hne Hs Hex Hcat HP) as HwP.
+  exists (tbl_of P). subst bl maxv nk. rewrite map_length in Hlen. split; [|split].
+  - apply mk_table_ok; try assumption.
+    + exact (wp_chunks P HwP).
+    + rewrite Hcat. exact (proj2 Hwf).
+  - rewrite open_table_ok by exact HwP. now rewrite Hcat.
+  - intros rev st ops Hok Hfirst. rewrite <- Hcat. now apply table_iter_refines.
+Qed.
